@@ -1,0 +1,55 @@
+//go:build verif
+// +build verif
+
+// Contracts for the deductive verifier in /verif (govc). Comment-only: no executable code.
+package upstreamclusteradmission
+
+//@ func filterRules props C17
+//@   pure
+//@   ensures [star] has(rules, "*") ==> len(filtered) == 1 && filtered[0] == "*"
+//@   ensures [pos_sound] !has(rules, "*") && anyPos(rules) ==> forall x string :: {has(filtered, x)} has(filtered, x) ==> !isNeg(x) && has(rules, x)
+//@   ensures [pos_complete] !has(rules, "*") && anyPos(rules) ==> forall j int :: {rules[j]} 0 <= j && j < len(rules) && !isNeg(rules[j]) ==> has(filtered, rules[j])
+//@   ensures [neg_same] !has(rules, "*") && !anyPos(rules) ==> forall x string :: {has(filtered, x)} {has(rules, x)} has(filtered, x) <==> has(rules, x)
+//@   ensures [fix_pos] !has(rules, "*") && len(rules) > 0 && allPos(rules) ==> filtered == rules
+//@   ensures [fix_neg] !has(rules, "*") && len(rules) > 0 && allNeg(rules) ==> filtered == rules
+//@   ensures [nonempty] len(rules) > 0 ==> len(filtered) > 0
+//@   ensures [fix_empty] len(rules) == 0 ==> len(filtered) == 0
+//@   ensures [normal] isNormal(filtered)
+//@   loop 0: invariant [bounds] 0 <= idx && idx <= len(rules)
+//@   loop 0: invariant [nostar] !matchAll && !has(take(rules, idx), "*")
+//@   loop 0: invariant [fsound] forall x string :: {has(filtered, x)} has(filtered, x) ==> !isNeg(x) && has(take(rules, idx), x)
+//@   loop 0: invariant [fcomplete] forall j int :: {rules[j]} 0 <= j && j < idx && !isNeg(rules[j]) ==> has(filtered, rules[j])
+//@   loop 0: invariant [rsound] forall x string :: {has(reversed, x)} has(reversed, x) ==> isNeg(x) && has(take(rules, idx), x)
+//@   loop 0: invariant [rcomplete] forall j int :: {rules[j]} 0 <= j && j < idx && isNeg(rules[j]) ==> has(reversed, rules[j])
+//@   loop 0: invariant [fprefix] (forall j int :: {rules[j]} 0 <= j && j < idx ==> !isNeg(rules[j])) ==> filtered == take(rules, idx) || (idx == 0 && len(filtered) == 0)
+//@   loop 0: invariant [rprefix] (forall j int :: {rules[j]} 0 <= j && j < idx ==> isNeg(rules[j])) ==> reversed == take(rules, idx) || (idx == 0 && len(reversed) == 0)
+//@   loop 0: invariant [fempty] len(filtered) == 0 ==> forall j int :: {rules[j]} 0 <= j && j < idx ==> isNeg(rules[j])
+
+//@ func normalizeRules props C17
+//@   pure
+//@   ensures [verbs] result.Verbs === filterRules(in.Verbs)
+//@   ensures [groups] result.APIGroups === filterRules(in.APIGroups)
+//@   ensures [resources] result.Resources === filterRules(in.Resources)
+//@   ensures [names] result.ResourceNames === filterRules(in.ResourceNames)
+//@   ensures [users] result.Users === filterRules(in.Users)
+//@   ensures [sas] result.ServiceAccounts === in.ServiceAccounts
+//@   ensures [usergroups] result.UserGroups === filterRules(in.UserGroups)
+//@   ensures [urls] result.NonResourceURLs === filterRules(in.NonResourceURLs)
+
+//@ const DP = cluster.Spec.DispatchPolicies
+//@ const DP0 = atloop(0, cluster.Spec.DispatchPolicies)
+
+//@ func (*upstreamclusterPlugin).Admit props C17
+//@   modifies *
+//@   ensures [normalized] afterloop(0) ==> len(DP) == len(DP0) && forall k int, l int :: {DP[k].Rules[l]} 0 <= k && k < len(DP) && 0 <= l && l < len(DP0[k].Rules) ==> DP[k].Rules[l] === normalizeRules(DP0[k].Rules[l])
+//@   ensures [lens] afterloop(0) ==> forall k int :: {DP[k]} 0 <= k && k < len(DP) ==> len(DP[k].Rules) == len(DP0[k].Rules)
+//@   loop 0: invariant [bounds] 0 <= idx && idx <= len(DP) && len(DP) == len(DP0)
+//@   loop 0: invariant [lens] forall k int :: {DP[k]} 0 <= k && k < len(DP) ==> len(DP[k].Rules) == len(DP0[k].Rules)
+//@   loop 0: invariant [done] forall k int, l int :: {DP[k].Rules[l]} 0 <= k && k < idx && 0 <= l && l < len(DP0[k].Rules) ==> DP[k].Rules[l] === normalizeRules(DP0[k].Rules[l])
+//@   loop 0: invariant [todo] forall k int :: {DP[k]} idx <= k && k < len(DP) ==> DP[k] === DP0[k]
+//@   loop 1: invariant [bounds] 0 <= i && i < len(DP) && len(DP) == len(DP0) && 0 <= idx && idx <= len(DP[i].Rules)
+//@   loop 1: invariant [lens] forall k int :: {DP[k]} 0 <= k && k < len(DP) ==> len(DP[k].Rules) == len(DP0[k].Rules)
+//@   loop 1: invariant [done] forall k int, l int :: {DP[k].Rules[l]} 0 <= k && k < i && 0 <= l && l < len(DP0[k].Rules) ==> DP[k].Rules[l] === normalizeRules(DP0[k].Rules[l])
+//@   loop 1: invariant [todo] forall k int :: {DP[k]} i < k && k < len(DP) ==> DP[k] === DP0[k]
+//@   loop 1: invariant [done_inner] forall l int :: {DP[i].Rules[l]} 0 <= l && l < idx ==> DP[i].Rules[l] === normalizeRules(DP0[i].Rules[l])
+//@   loop 1: invariant [todo_inner] forall l int :: {DP[i].Rules[l]} idx <= l && l < len(DP[i].Rules) ==> DP[i].Rules[l] === DP0[i].Rules[l]
